@@ -22,8 +22,11 @@ impl FangAction for CtxFang {
 struct ScrubProc<I: ohkami::FangProc>(I);
 impl<I: ohkami::FangProc> ohkami::FangProc for ScrubProc<I> {
     async fn bite<'b>(&'b self, req: &'b mut Request) -> Response {
-        let res = self.0.bite(req).await;
+        let mut res = self.0.bite(req).await;
         if req.headers.get("X-Scrub").is_some() { req.headers.set().Connection(None); }
+        // ... and that writes a `Connection` field on the RESPONSE when the request asks for one (`X-Res-Conn`): what the application says there
+        // does not change when the session ends
+        if let Some(v) = req.headers.get("X-Res-Conn").map(|s| s.to_string()) { res.headers.set().Connection(v); }
         res
     }
 }
